@@ -11,7 +11,7 @@ the implementation returned.
 * the requirement table a result marked successful must satisfy;
 * the rules for automatically built windows (inside the data range, contain the
   estimate, keep factor*gap from each neighbouring estimate - per-side reading);
-* peak removal: which points may change and by how much.
+* peak removal: which points may change and by how much (half-open windows, as the fit).
 """
 from __future__ import annotations
 
@@ -58,7 +58,7 @@ def in_window(x, lo, hi):
 
 
 def on_boundary(x, lo, hi):
-    """Points whose membership depends on how the bounds are read (closed or open)."""
+    """Points equal to a window bound (lo belongs to the window, hi does not)."""
     x = np.asarray(x, dtype=float)
     return (x == lo) | (x == hi)
 
@@ -193,31 +193,33 @@ def requirement_faults(shape, popt, p_value, x_in_window, lo, hi, *, min_p_value
 def removal_faults(x, y_in, y_out, successes, peak_tol=1e-12):
     """successes: list of (shape, popt, lo, hi) of the results marked successful, in order.
 
-    Outside every successful window the output must be the input bit for bit; inside,
-    output = input - sum of the fitted peaks whose window holds the point.  Points
-    exactly on a window bound are don't-care for that window.
+    Window membership is the one the fit itself used: the half-open label slice [lo, hi)
+    of the sorted coordinate (``in_window``) - a point equal to ``lo`` is inside, a point
+    equal to ``hi`` is outside.  Outside every successful window the output must be the
+    input bit for bit; inside, output = input - sum of the fitted peaks whose window
+    holds the point.
     """
     x, y_in, y_out = (np.asarray(a, dtype=float) for a in (x, y_in, y_out))
     out = []
     expect = y_in.copy()
     scale = np.abs(y_in).copy()
-    care = np.ones(len(x), dtype=bool)
     touched = np.zeros(len(x), dtype=bool)
+    upper_edge = np.zeros(len(x), dtype=bool)
     for shape, popt, lo, hi in successes:
         m = in_window(x, lo, hi)
-        care &= ~on_boundary(x, lo, hi)
         pk = peak_values(shape, popt, x[m])
         expect[m] -= pk
         scale[m] += np.abs(pk)
         touched |= m
-    outside = care & ~touched
+        upper_edge |= x == hi
+    outside = ~touched
     bad = outside & ~((y_out == y_in) | (np.isnan(y_out) & np.isnan(y_in)))
     if np.any(bad):
         i = int(np.flatnonzero(bad)[0])
-        out.append(('changed_outside_windows', f'point x={x[i]!r} lies in no successful window but changed from {y_in[i]!r} to {y_out[i]!r}'))
-    inside = care & touched
+        where = 'is the upper bound of a successful window, which the half-open window [lo, hi) does not hold,' if upper_edge[i] else 'lies in no successful window'
+        out.append(('changed_on_upper_bound' if upper_edge[i] else 'changed_outside_windows', f'point x={x[i]!r} {where} but changed from {y_in[i]!r} to {y_out[i]!r}'))
     tol = peak_tol * scale + 4 * ps.EPS * scale
-    bad = inside & ~(np.abs(y_out - expect) <= tol)
+    bad = touched & ~(np.abs(y_out - expect) <= tol)
     if np.any(bad):
         i = int(np.flatnonzero(bad)[0])
         out.append(('not_input_minus_peak', f'point x={x[i]!r} in a successful window: output {y_out[i]!r}, input - fitted peak(s) = {expect[i]!r} (input {y_in[i]!r})'))
